@@ -243,3 +243,88 @@ Example exact_nonvacuous :
   update Fixed ex_d [] [(s "phase", IStr (s "FALSE")); (s "gap", IStr (s "1e-1")); (s "cn_max", IStr (s " 7 ")); (s "zzz", IInt 3)]
   = Ok (ex_d', ex_d').
 Proof. vm_compute. reflexivity. Qed.
+
+(* ---------- write-then-load, any number of parameters ---------- *)
+Lemma convert_not_none bv cur v pv : convert bv cur v = Ok pv -> pv <> VNone.
+Proof. intros H ->. destruct cur; try (apply convert_type in H; cbn in H; discriminate). cbn in H. discriminate. Qed.
+
+Lemma aset_fresh {V} n (v : V) d : ~ In n (map fst d) -> aset str_eqb n v d = d ++ [(n, v)].
+Proof.
+  induction d as [|[k w] d IH]; cbn [aset map fst app In]; intros H; [reflexivity|].
+  rewrite str_eqb_neq by (intros ->; apply H; left; reflexivity).
+  f_equal. apply IH. intros Hi. apply H. right. exact Hi.
+Qed.
+
+(* with pairwise distinct names (what a keyword dictionary guarantees), the returned parameter list is the
+   sequence of typed assignments that produced the final dictionary *)
+Lemma update_trace : forall kw d ps d' ps',
+  update Fixed d ps kw = Ok (d', ps') -> NoDup (map fst kw) -> (forall n, In n (map fst kw) -> ~ In n (map fst ps)) ->
+  exists tr, ps' = ps ++ tr /\ typed_for d tr /\ d' = assign d tr.
+Proof.
+  induction kw as [|[n v] kw IH]; intros d ps d' ps' H Hnd Hdis; cbn [update] in H.
+  - inversion H; subst. exists []. rewrite app_nil_r. repeat split.
+  - cbn [map fst] in Hnd. inversion Hnd as [|? ? Hn Hnd']; subst.
+    assert (Hdis' : forall m, In m (map fst kw) -> ~ In m (map fst ps)) by (intros m Hm; apply Hdis; right; exact Hm).
+    assert (Hskip : update Fixed d ps kw = Ok (d', ps') -> exists tr, ps' = ps ++ tr /\ typed_for d tr /\ d' = assign d tr)
+      by (intros H'; eapply IH; eassumption).
+    destruct v; try (apply Hskip; exact H);
+    (destruct (alookup str_eqb n d) as [cur|] eqn:Hl; [|apply Hskip; exact H];
+     destruct (str_eqb n (s "cn_solution")) eqn:Hcn; [discriminate|];
+     match type of H with context [convert ?a ?b ?c] => destruct (convert a b c) as [pv| |] eqn:Hc end; try discriminate;
+     rewrite (aset_fresh n pv ps) in H by (apply Hdis; left; reflexivity);
+     destruct (IH _ _ _ _ H Hnd') as (tr & Hps & Hty & Hd);
+     [ intros m Hm Hin; rewrite map_app in Hin; apply in_app_or in Hin as [Hin|Hin];
+       [exact (Hdis' m Hm Hin)|cbn in Hin; destruct Hin as [<-|[]]; exact (Hn Hm)]
+     | exists ((n, pv) :: tr); rewrite Hps, <- app_assoc; cbn [app typed_for assign fold_left fst snd]; repeat split;
+       [ intros ->; rewrite str_eqb_refl in Hcn; discriminate
+       | eapply convert_not_none; exact Hc
+       | exists cur; split; [exact Hl|eapply convert_type; exact Hc]
+       | exact Hty
+       | exact Hd ] ]).
+Qed.
+
+(* The options a profile file holds are the natively typed values returned by update; loading them into a fresh
+   dictionary gives exactly the dictionary the writer's run ended with. *)
+Theorem write_then_load : forall kw d0 d ps,
+  NoDup (map fst kw) -> update Fixed d0 [] kw = Ok (d, ps) ->
+  exists acc, update Fixed d0 [] (map (fun kv => (fst kv, native (snd kv))) ps) = Ok (d, acc).
+Proof.
+  intros kw d0 d ps Hnd H.
+  destruct (update_trace kw d0 [] d ps H Hnd) as (tr & Hps & Hty & Hd); [intros n _ []|].
+  cbn [app] in Hps. subst ps d. apply update_typed. exact Hty.
+Qed.
+
+(* keyword dictionaries have pairwise distinct names *)
+Lemma aset_keys_in {V} n (v : V) d m : In m (map fst (aset str_eqb n v d)) -> m = n \/ In m (map fst d).
+Proof.
+  induction d as [|[k w] d IH]; cbn [aset map fst In]; intros H.
+  - destruct H as [<-|[]]. left. reflexivity.
+  - destruct (str_eqb n k) eqn:E; cbn [map fst In] in H.
+    + right. exact H.
+    + destruct H as [<-|H]; [right; left; reflexivity|]. destruct (IH H) as [->|Hi]; [left; reflexivity|right; right; exact Hi].
+Qed.
+Lemma aset_nodup {V} n (v : V) d : NoDup (map fst d) -> NoDup (map fst (aset str_eqb n v d)).
+Proof.
+  induction d as [|[k w] d IH]; cbn [aset map fst]; intros H.
+  - constructor; [intros []|constructor].
+  - inversion H as [|? ? Hk Hd]; subst. destruct (str_eqb n k) eqn:E; cbn [map fst].
+    + constructor; assumption.
+    + constructor; [|apply IH; exact Hd]. intros Hi. apply aset_keys_in in Hi as [->|Hi]; [rewrite str_eqb_refl in E; discriminate|exact (Hk Hi)].
+Qed.
+Lemma mkdict_nodup {V} (kw : list (str * V)) : NoDup (map fst (mkdict kw)).
+Proof.
+  unfold mkdict. assert (H : forall acc, NoDup (map fst acc) ->
+      NoDup (map fst (fold_left (fun acc kv => aset str_eqb (fst kv) (snd kv) acc) kw acc))).
+  { induction kw as [|[k v] kw IH]; intros acc Ha; cbn [fold_left fst snd]; [exact Ha|]. apply IH. apply aset_nodup. exact Ha. }
+  apply H. constructor.
+Qed.
+
+Theorem write_options_then_load : forall c kw opts,
+  write_options Fixed c kw = Ok opts ->
+  exists d ps acc, update Fixed (c_params c) [] (mkdict kw) = Ok (d, ps) /\ update Fixed (c_params c) [] opts = Ok (d, acc).
+Proof.
+  intros c kw opts H. unfold write_options in H.
+  destruct (update Fixed (c_params c) [] (mkdict kw)) as [[d ps]| |] eqn:Hu; try discriminate.
+  inversion H; subst opts. destruct (write_then_load _ _ _ _ (mkdict_nodup kw) Hu) as [acc Hacc].
+  exists d, ps, acc. split; [reflexivity|exact Hacc].
+Qed.
